@@ -544,7 +544,7 @@ func c07InsertGuards(c *Ctx) {
 		if !isRet {
 			continue
 		}
-		last := ret.Results[len(ret.Results)-1]
+		last := an.RetErr(ret)
 		if globalLoad(last, "ErrS3DBConstraintNotNull") {
 			if an.GuardedByNilTest(an.Edge{From: b}, func(v ssa.Value) bool { return gk != nil && (an.SameValue(v, gk) || phiHas(gk, v)) }, true) {
 				nn = true
